@@ -73,6 +73,12 @@ Definition zffi (name : string) (args : list (value Z)) : res (value Z) :=
     match args with [x; VList l] => Ok (VList (l ++ [x])%list) | _ => Wrong end
   else if String.eqb name "str_length" then
     match args with [VStr s] => Ok (VQ (Z.of_nat (String.length s))) | _ => Wrong end
+  else if String.eqb name "mod" then
+    (* f64::rem_euclid; mod(x, 0) is NaN and is kept out of the comparison *)
+    match args with
+    | [VQ a; VQ b] => if Z.eqb b 0 then Err "unmodelled-nan" else Ok (VQ (Z.modulo a (Z.abs b)))
+    | _ => Wrong
+    end
   else if String.eqb name "str_slice" then
     (* input.get(start..end).unwrap_or_default(), ASCII strings; `as usize` saturates at 0 *)
     match args with
